@@ -169,10 +169,12 @@ func VerifC03_History() {
 		PartitionInfo: map[string]int64{"p": 811}, PChannel: rTgtP, VChannel: rTgtP + "_800v0",
 		PartitionBarrierChan: map[int64]*model.OnceWriteChan[*model.BarrierSignal]{}, DroppedPartition: map[int64]struct{}{}})
 	if vBool("resumed") {
-		// restart: the clock floor comes from the seek position / start ts
+		// restart: the clock floor comes from the seek position of the handler's first
+		// collection (the real startReadChannel reads it) and from the joining collection
 		floor := vU64("resume.floor")
 		vAssume(floor < c03Lim)
-		env.h.collectionSourceSeekPosition(rPos(rSrcP, "seek", floor), vU64("resume.startTs")&(c03Lim-1))
+		GetTSManager().CollectTS(FormatChanKey(rRID, rTgtP), floor)
+		GetTSManager().CollectTS(FormatChanKey(rRID, rTgtP), vU64("resume.startTs")&(c03Lim-1))
 	}
 	lastTick := uint64(0)
 	emitted := 0
@@ -381,6 +383,61 @@ func VerifC03_EnqueueOrder() {
 			srcs = srcsB
 		}
 		last = c03CheckPack(o, srcs, last, false, ":enqueue-order")
+	}
+	vReach("end")
+}
+
+// VerifC03_ResumeStreams: restart from checkpoints. The handler is created for collection
+// X (seek position time tx), collection Y joins through the REAL AddCollection with its own
+// checkpoint (seek time ty, user start time sy); their streams are fake channels read by
+// the real AddCollection goroutines. A replayed pack of either stream is emitted above
+// that stream's own resume time (everything up to it was already delivered before the
+// restart) and satisfies the step conditions against the last tick.
+func VerifC03_ResumeStreams() {
+	env := rNewHandler(rSrcP, rTgtP)
+	tx, ty, sy := vU64("x.seekTs"), vU64("y.seekTs"), vU64("y.startTs")
+	vAssume(vAnd(vAnd(tx >= 1, tx < c03Lim), vAnd(vAnd(ty >= 1, ty < c03Lim), sy < c03Lim)))
+	env.h.sourceSeekPosition = rPos(rSrcP, "seekX", tx)
+	env.h.startReadChannel() // real: clock floor from the creator's seek position, message loop goroutine
+	ti, _ := GetTSManager().channelTS2.Get(FormatChanKey(rRID, rTgtP))
+	ti.cts, ti.lts = tx, 0 // a fresh process (natively the clock table is process-wide)
+	for len(ti.targetMsgChan) > 0 {
+		<-ti.targetMsgChan
+	}
+	vchX, vchY := rSrcP+"_100v0", rSrcP+"_200v0"
+	mk := func(id int64, name string) *model.TargetCollectionInfo {
+		return &model.TargetCollectionInfo{CollectionID: 700 + id, CollectionName: name, DatabaseName: "db",
+			PartitionInfo: map[string]int64{"p": 911}, PChannel: rTgtP, VChannel: rTgtP + "_900v0",
+			PartitionBarrierChan: map[int64]*model.OnceWriteChan[*model.BarrierSignal]{}, DroppedPartition: map[int64]struct{}{}}
+	}
+	env.h.AddCollection("task", &model.SourceCollectionInfo{PChannel: rSrcP, VChannel: vchX, CollectionID: 100, SeekPosition: rPos(rSrcP, "seekX", tx)}, mk(100, "coll"))
+	env.h.AddCollection("task", &model.SourceCollectionInfo{PChannel: rSrcP, VChannel: vchY, CollectionID: 200, SeekPosition: rPos(rSrcP, "seekY", ty), StartTs: sy}, mk(200, "coll2"))
+	vQuiesce()
+	vAssert(env.streams.chans[vchX] != nil && env.streams.chans[vchY] != nil, "C03.harness:streams-opened")
+	vAssert(string(env.streams.seeks[vchY].GetMsgID()) == "seekY", "C03.joining-stream-is-opened-at-its-own-checkpoint")
+	// one replayed pack, of X or of Y
+	ofY := vBool("replayedPackOfY")
+	coll, vch, floor := int64(100), vchX, tx
+	if ofY {
+		coll, vch, floor = 200, vchY, ty
+		if sy > floor {
+			floor = sy
+		}
+	}
+	pack, srcs := c03SourcePack("pack", coll, vch, 1)
+	ltsPre := ti.lts
+	env.streams.chans[vch] <- pack
+	vQuiesce()
+	vAssert(len(ti.targetMsgChan) == 1, "C03.replayed-pack-is-emitted")
+	if len(ti.targetMsgChan) == 1 {
+		out := <-ti.targetMsgChan
+		tick := c03CheckPack(out, srcs, ltsPre, true, ":resume")
+		for _, m := range out.MsgPack.Msgs {
+			if !rIsTick(m) {
+				vAssert(m.EndTs() > floor, "C03.replayed-data-is-emitted-above-its-stream's-resume-time")
+			}
+		}
+		vAssert(tick > floor, "C03.closing-tick-after-resume-is-above-the-resume-time")
 	}
 	vReach("end")
 }
